@@ -43,7 +43,7 @@ def dumpCalls (s : State) : String :=
 def parseOp (toks : List String) : Option Op :=
   match toks with
   | "load" :: id :: ds => (ds.mapM parseDecl).map (Op.loadModule id.toNat!)
-  | ["ext", n, k] => some (.loadExternal ((n.toList.headD 'a').toNat - 97) (100 + k.toNat! % 10))
+  | ["ext", n, k] => some (.loadExternal ((n.toList.headD 'a').toNat - 97) (if k == "N" then 0 else 100 + k.toNat! % 10))   -- N: address NULL
   | ["redef", b] => some (.setRedef (b != "0"))
   | ["link", i, names] =>
     let ifc : Option Iface := match i with
@@ -124,7 +124,9 @@ def specStep (st : SpecSt) (op : Op) : SpecSt × String :=
         else st.frozen
       ({ st with r := op :: r, frozen := frozen' }, "ok" ++ line)
   | .call =>
-    ({ st with r := op :: r }, "ok" ++ String.join (st.frozen.map fun m => s!" m{m.1}:" ++ fmtVals m.2))
+    -- a module bound to an external with address NULL cannot be called: nothing is demanded
+    if st.frozen.any (fun m => m.2.any (·.2 == 0)) then ({ st with stop := true }, "any")
+    else ({ st with r := op :: r }, "ok" ++ String.join (st.frozen.map fun m => s!" m{m.1}:" ++ fmtVals m.2))
 
 partial def specLoop (h : IO.FS.Stream) (st : SpecSt) : IO Unit := do
   let line ← h.getLine
